@@ -82,9 +82,11 @@ func scenarioFailedCommitThenWrites(c *wk.Ctx, i int) {
 		tr.Discard()
 		c.Count("scenario_commits_failed_on_manifest_sync", 1)
 		c.Count("scenario_manifest_sync_failures", int64(flt.Hits))
-		if r.Intn(2) == 0 {
-			st.ClearFaults() // half of the scenarios: the storage recovers right after the discard
-		}
+		// The storage recovers right after the discard. (While the manifest cannot be synced no flush can be
+		// committed, and a writer that fills the buffer waits for that flush for as long as the fault lasts:
+		// that is C09's subject, and not a state in which further writes can be acknowledged.)
+		r.Intn(2)
+		st.ClearFaults()
 		// acknowledged writes after the failed transaction (fewer than the transaction had, or more)
 		type ack struct{ k, v []byte }
 		var acks []ack
